@@ -98,18 +98,21 @@ func NewWordList(list []string) (*WordList, error) {
 			if unique[cap] {
 				if cap != w { // w is "polish"
 					delete(unique, cap) // delete won't change what is in range
-				} else {
-					unCapable++
 				}
 			}
 		}
 	}
 
 	// third pass, because life sucks
+	// Words that are their own capitalization are counted here, over the
+	// words we keep, so that the count does not depend on whether "Polish"
+	// was visited before or after "polish" removed it.
 	var ourWords []string
 	for w := range unique {
 		ourWords = append(ourWords, w)
-
+		if strings.Title(w) == w {
+			unCapable++
+		}
 	}
 
 	if len(list) > len(ourWords) {
